@@ -68,7 +68,7 @@ EXC_CLASSES = {'ValueError': ValueError, 'KeyError': KeyError, 'RuntimeError': R
 
 
 def _traced_file(fn):
-    return 'moPepGen' in fn or '/Bio/' in fn
+    return 'moPepGen' in fn
 
 
 def _short(fn):
@@ -111,6 +111,11 @@ class SimPool:
 # ---------------------------------------------------------------------------------------------
 # VirtualAlarm
 # ---------------------------------------------------------------------------------------------
+
+STAGES = ('create_variant_graph', 'create_variant_circ_graph', 'fit_into_codons', 'translate',
+          'create_cleavage_graph', 'call_variant_peptides', 'call_peptide_fusion', 'call_peptide_circ_rna',
+          'call_peptide_main', 'call_canonical_peptides')
+
 
 class FakeSignal:
     """What cli.common sees as the ``signal`` module.
@@ -167,8 +172,12 @@ class FakeSignal:
                     fs.handler(14, frame)
             return local
 
+        stages = run.stage_marks.setdefault(f'{tx}#{att}', [])
+
         def glob(frame, event, arg):
             if _traced_file(frame.f_code.co_filename):
+                if fs.count_all and frame.f_code.co_name in STAGES:
+                    stages.append((frame.f_code.co_name, fs.lines))
                 return local
             return None
         sys.settrace(glob)
@@ -187,6 +196,7 @@ class Run:
         self.attempts = []
         self.attempt_no = {}
         self.attempt_lines = []
+        self.stage_marks = {}
         self.alarm_fired = []
         self.sim_seconds = 0
         self.current_tx = None
